@@ -63,6 +63,7 @@ def check(program: Program, run: Run) -> None:
     run.rule("R2 qualifier emitted iff table and (with_namespace or alias); text = alias else table name; Field and Star agree")
     run.rule("R3 INSERT column list, SET targets, ON CONFLICT/ON DUPLICATE update targets: with_namespace Const False; USING fields built without a table")
     run.rule("R4 a name that only ever denotes methods is never used un-called as a truth value or comparison operand")
+    run.rule("R5 the foreign-table decision (_validate_table) identifies row sources by whole-object equality/membership over _from, _update_table and the joined items, never by a projection (name only) of the source")
     run.exhaustive = True
     tbl, qbc = program.cls("Table"), program.cls("QueryBuilder")
     kinds = kind_states(program)
@@ -182,3 +183,46 @@ def check(program: Program, run: Run) -> None:
         run.finding(f"C11/method-as-bool:{f.qualname}:{src}", f"{f.qualname} uses `{src}` as a {kind}, but `{n.attr}` only ever names a method: a bound method is always truthy and never equals data (a data attribute such as `_{n.attr.rstrip('_')}` was probably meant)",
                     where=f.loc(n), rule="R4", excerpt=f.module.excerpt(n.lineno, 1))
     run.ob("C11/R4 lint evaluated over all functions", "package", True, detail=f"{len(program.all_functions())} functions scanned", nontrivial=False)
+
+    # ---- R5: `emp` and `emp AS e2` are different row sources (Table.__eq__ compares name, schema and alias); a test on a
+    # projection of the referenced table (its name alone) accepts a foreign table as local and the reference stays bare.
+    nsites = 0
+    for c in [program.cls(b) for b in BUILDER_CLASSES]:
+        f = c.methods.get("_validate_table")
+        if f is None:
+            continue
+        selfn = f.params[0]
+        # names bound to `<field>.table`
+        tnames = set()
+        for n in ast.walk(f.node):
+            if isinstance(n, ast.Assign) and isinstance(n.value, ast.Attribute) and n.value.attr == "table":
+                for t in n.targets:
+                    if isinstance(t, ast.Name):
+                        tnames.add(t.id)
+
+        def is_table_expr(x):
+            return (isinstance(x, ast.Attribute) and x.attr == "table" and not (isinstance(x.value, ast.Name) and x.value.id == selfn)) or (
+                isinstance(x, ast.Name) and x.id in tnames)
+        whole = proj = 0
+        for n in ast.walk(f.node):
+            if not isinstance(n, ast.Compare):
+                continue
+            for opnd in [n.left] + list(n.comparators):
+                if is_table_expr(opnd):
+                    whole += 1
+                for sub in ast.walk(opnd):
+                    if isinstance(sub, ast.Attribute) and is_table_expr(sub.value):
+                        proj += 1
+                        run.finding(f"C11/source-identity-by-projection:{f.qualname}:{sub.attr}",
+                                    f"{f.qualname} decides whether a referenced table is one of the statement's own sources by comparing `{ast.unparse(sub)}` (a projection of the table) instead of the table itself: "
+                                    "a same-named source under another alias is taken for local, the foreign-table flag stays off and the reference is written unqualified", where=f.loc(n), rule="R5")
+        nsites += whole
+        reads = {n.attr for n in ast.walk(f.node) if isinstance(n, ast.Attribute) and isinstance(n.value, ast.Name) and n.value.id == selfn}
+        for need in ("_from", "_update_table", "_joins"):
+            ok = need in reads
+            run.ob("C11/R5 foreign-table decision consults every row source", f"{f.qualname}:{need}", ok, where=f.loc())
+            if not ok:
+                run.finding(f"C11/source-missing:{f.qualname}:{need}", f"{f.qualname} does not consult {need}: references to sources introduced there are taken for foreign (or the reverse)", where=f.loc(), rule="R5")
+        run.ob("C11/R5 sources compared as whole objects", f.qualname, proj == 0 and whole >= 2, detail=f"{whole} whole-object tests, {proj} projections", where=f.loc())
+    if nsites < 2:
+        raise AnalysisError(f"anchor vanished: _validate_table whole-object source tests {nsites}")
